@@ -109,3 +109,11 @@ Theorem C17_connect_documented_srv : forall url o limit prepared st e st',
 Proof. exact ws_connect_documented_srv. Qed.
 Print Assumptions C17_connect_documented_srv.
 
+From WS Require Import Base.GenPrelude Gen.GenAbnf Gen.GenCore Model.Send Model.Conn Model.Script Proofs.RecvApi.
+
+(* recv() adds no exception of its own to those of recv_data_frame (no UnicodeDecodeError even with validation off) *)
+Theorem C17_recv_adds_no_exception : forall w e w',
+  ws_recv w = (RExn e, w') -> ws_recv_data_frame (rdf_fuel w) false w = (Raise e, w').
+Proof. exact ws_recv_raises_only_what_recv_data_frame_raises. Qed.
+Print Assumptions C17_recv_adds_no_exception.
+
